@@ -278,10 +278,6 @@ theorem joinLoops_wfLocal : WfLocal joinLoops := by
 
 /-! ### eliminate_dead_code -/
 
-def deadCodeOk (keepThen : Bool) : List Stmt → Bool
-  | .ite _ t e :: r => disj (defNames (if keepThen then t else e)) (bindL r)
-  | _ => true
-
 theorem deadCode_local (keepThen : Bool) (Γ : Env) (ss r : List Stmt)
     (hr : deadCode keepThen ss = some r) (hok : deadCodeOk keepThen ss = true)
     (hw : (wfL Γ ss).isSome = true) : (wfL Γ r).isSome = true := by
@@ -302,10 +298,6 @@ theorem deadCode_local (keepThen : Bool) (Γ : Env) (ss r : List Stmt)
   · cases hr
 
 /-! ### remove_loop -/
-
-def removeLoopOk (guarded : Bool) : List Stmt → Bool
-  | .loop i _ _ b _ :: r => !occL i b && (guarded || disj (defNames b) (bindL r))
-  | _ => true
 
 theorem removeLoop_local (guarded : Bool) (Γ : Env) (ss r : List Stmt)
     (hr : removeLoop guarded ss = some r) (hok : removeLoopOk guarded ss = true)
@@ -328,13 +320,6 @@ theorem removeLoop_local (guarded : Bool) (Γ : Env) (ss r : List Stmt)
   · cases hr
 
 /-! ### add_loop -/
-
-/-- `(wfL Γ rest).isSome`: the statements after the wrapped one are well formed WITHOUT what it
-    defines (the new loop closes the scope of a definition); syntactic form and exactness:
-    `addLoop_rest_iff` in Lemmas/WfShapes3.lean -/
-def addLoopOk (Γ : Env) (i : Sym) (hi : Expr) : List Stmt → Bool
-  | s :: rest => fresh Γ i && wfC Γ hi && !(bindS s).contains i && (wfL Γ rest).isSome
-  | [] => true
 
 theorem addLoop_local (i : Sym) (hi : Expr) (guard : Bool) (Γ : Env) (ss r : List Stmt)
     (hr : addLoop i hi guard ss = some r) (hok : addLoopOk Γ i hi ss = true)
@@ -370,10 +355,6 @@ theorem addLoop_local (i : Sym) (hi : Expr) (guard : Bool) (Γ : Env) (ss r : Li
 
 /-! ### fission -/
 
-def fissionLoopOk (Γ : Env) (i2 : Sym) (second : List Stmt) : List Stmt → Bool
-  | .loop _ _ _ _ _ :: _ => fresh Γ i2 && (wfL ((i2, none) :: Γ) second).isSome
-  | _ => true
-
 theorem fissionLoop_local (k : Nat) (i2 : Sym) (second : List Stmt) (Γ : Env) (ss r : List Stmt)
     (hr : fissionLoop k i2 second ss = some r) (hok : fissionLoopOk Γ i2 second ss = true)
     (hw : (wfL Γ ss).isSome = true) : (wfL Γ r).isSome = true := by
@@ -405,11 +386,6 @@ theorem fission_second_wf {Γ : Env} {i i2 : Sym} {b : List Stmt} (k : Nat)
 
 /-! ### fuse -/
 
-def fuseLoopsOk (Γ : Env) (body2 : List Stmt) : List Stmt → Bool
-  | .loop i _ _ b _ :: .loop _ _ _ _ _ :: _ =>
-    (wfL ((i, none) :: Γ) body2).isSome && disj (defNames b) (bindL body2)
-  | _ => true
-
 theorem fuseLoops_local (body2 : List Stmt) (Γ : Env) (ss r : List Stmt)
     (hr : fuseLoops body2 ss = some r) (hok : fuseLoopsOk Γ body2 ss = true)
     (hw : (wfL Γ ss).isSome = true) : (wfL Γ r).isSome = true := by
@@ -437,10 +413,6 @@ theorem fuse_body2_ok {Γ : Env} {i i2 : Sym} {lo hi lo2 hi2 : Expr} {b b2 rest 
   simp only [fuseLoopsOk, Bool.and_eq_true, bindL_subst]
   exact ⟨rename_iter_wf hb2 ((fresh_iff _ _).1 hf) hib, hd⟩
 
-def fuseIfsOk : List Stmt → Bool
-  | .ite _ t e :: .ite _ t2 e2 :: _ => disj (defNames t) (bindL t2) && disj (defNames e) (bindL e2)
-  | _ => true
-
 theorem fuseIfs_local (Γ : Env) (ss r : List Stmt) (hr : fuseIfs ss = some r)
     (hok : fuseIfsOk ss = true) (hw : (wfL Γ ss).isSome = true) : (wfL Γ r).isSome = true := by
   unfold fuseIfs at hr
@@ -456,10 +428,6 @@ theorem fuseIfs_local (Γ : Env) (ss r : List Stmt) (hr : fuseIfs ss = some r)
 
 /-! ### cut_loop, specialize (general parameters) -/
 
-def cutLoopOk (Γ : Env) (i2 : Sym) (mid : Expr) (body2 : List Stmt) : List Stmt → Bool
-  | .loop _ _ _ _ _ :: _ => fresh Γ i2 && wfC Γ mid && (wfL ((i2, none) :: Γ) body2).isSome
-  | _ => true
-
 theorem cutLoop_local (i2 : Sym) (mid : Expr) (body2 : List Stmt) (Γ : Env) (ss r : List Stmt)
     (hr : cutLoop i2 mid body2 ss = some r) (hok : cutLoopOk Γ i2 mid body2 ss = true)
     (hw : (wfL Γ ss).isSome = true) : (wfL Γ r).isSome = true := by
@@ -472,10 +440,6 @@ theorem cutLoop_local (i2 : Sym) (mid : Expr) (body2 : List Stmt) (Γ : Env) (ss
     obtain ⟨hf, hlo, hhi, hb, hrest⟩ := loop_inv hw
     exact loop_intro par hf hlo hok.1.2 hb (loop_intro par hok.1.1 hok.1.2 hhi hok.2 hrest)
   · cases hr
-
-def specializeOk (Γ : Env) (c : Expr) (copy : List Stmt) : List Stmt → Bool
-  | _ :: rest => wfC Γ c && (wfL Γ copy).isSome && (wfL Γ rest).isSome
-  | [] => true
 
 theorem specialize_local (c : Expr) (copy : List Stmt) (Γ : Env) (ss r : List Stmt)
     (hr : specialize c copy ss = some r) (hok : specializeOk Γ c copy ss = true)
@@ -493,10 +457,6 @@ theorem specialize_local (c : Expr) (copy : List Stmt) (Γ : Env) (ss r : List S
   · cases hr
 
 /-! ### reorder_loops -/
-
-def reorderLoopsOk : List Stmt → Bool
-  | .loop i _ _ [.loop _ lo2 hi2 _ _] _ :: _ => !lo2.occC i && !hi2.occC i
-  | _ => true
 
 theorem reorderLoops_local (Γ : Env) (ss r : List Stmt) (hr : reorderLoops ss = some r)
     (hok : reorderLoopsOk ss = true) (hw : (wfL Γ ss).isSome = true) :
@@ -530,10 +490,6 @@ theorem reorderLoops_local (Γ : Env) (ss r : List Stmt) (hr : reorderLoops ss =
   · cases hr
 
 /-! ### reorder_stmts -/
-
-def reorderStmtsOk (Γ : Env) : List Stmt → Bool
-  | a :: b :: _ => (wfS Γ b).isSome && disj (defName b) (bindS a)
-  | _ => true
 
 theorem reorderStmts_local (Γ : Env) (ss r : List Stmt) (hr : reorderStmts ss = some r)
     (hok : reorderStmtsOk Γ ss = true) (hw : (wfL Γ ss).isSome = true) :
